@@ -6,6 +6,7 @@ import (
 	"fmt"
 	"net/http"
 	"net/http/httptest"
+	"strings"
 
 	"github.com/elnosh/gonuts/cashu"
 	"github.com/elnosh/gonuts/cashu/nuts/nut04"
@@ -17,12 +18,24 @@ import (
 
 // vhDo drives one HTTP handler: natively with httptest, in the engine through the handler-level model of net/http
 func vhDo(handler func(http.ResponseWriter, *http.Request), method, url string, vars map[string]string, body []byte) (int, []byte) {
-	rec := httptest.NewRecorder()
-	req := httptest.NewRequest(method, url, bytes.NewReader(body))
-	req = mux.SetURLVars(req, vars)
-	handler(rec, req)
-	return rec.Code, rec.Body.Bytes()
+	if v.Native() {
+		rec := httptest.NewRecorder()
+		req := httptest.NewRequest(method, url, bytes.NewReader(body))
+		req = mux.SetURLVars(req, vars)
+		handler(rec, req)
+		return rec.Code, rec.Body.Bytes()
+	}
+	// in the engine the handler is an ordinary call (so that its storage calls stay scheduling / fault points)
+	rw, req := vhModelReq(method, url, vars, body)
+	handler(rw, req)
+	return vhModelResp(rw)
 }
+
+// intercepted by the engine (models/httpm.py): request / response objects of the handler-level net/http model
+func vhModelReq(method, url string, vars map[string]string, body []byte) (http.ResponseWriter, *http.Request) {
+	return nil, nil
+}
+func vhModelResp(rw http.ResponseWriter) (int, []byte) { return 0, nil }
 
 // hand-built request JSON (not the repository's request types)
 type vhJProof struct {
@@ -221,5 +234,75 @@ func VHarnessServerMint() {
 				v.Assert(v.And(*e.Code == int(cashu.StandardErrCode), *e.Detail == cashu.StandardErr.Detail), "C20 a Lightning backend failure is reported generically, without internal detail")
 			}
 		}
+	}
+}
+
+// C20: storage failures (an error injected at any one storage call of the operation, position symbolic) and Lightning
+// lookup failures are reported generically by every handler: 400 + {detail, code} where the internal codes 1 / 2 never
+// appear and the detail never carries the internal error text; without a failure the handler answers 200 or a NUT refusal.
+func VHarnessServerFaults() {
+	env := vhNewEnv(1)
+	v.Assume(env.m.keysets[env.ids[0]].InputFeePpk == 0)
+	env.hook()
+	env.ln.QuietWatcher = true
+	ms := &MintServer{mint: env.m, cache: NewCache()}
+	bolt := map[string]string{"method": "bolt11"}
+	mq := storage.MintQuote{Id: "mintq1", Amount: vhDenoms[0], PaymentRequest: "lnbc-mintq1", PaymentHash: "hash-mintq1", State: nut04.State(v.Int("mintq.state", 0, 1)), Expiry: 1}
+	v.Assume(env.db.SaveMintQuote(mq) == nil)
+	ins, outs, _ := env.balancedRequest()
+	jin := []vhJProof{{ins[0].Amount, ins[0].Id, ins[0].Secret, ins[0].C, ins[0].Witness}}
+	jout := []vhJOutput{{outs[0].Amount, outs[0].Id, outs[0].B_}}
+	meltq := storage.MeltQuote{Id: "meltq1", InvoiceRequest: "lnbc-meltq1", PaymentHash: "hash-meltq1", Amount: vhDenoms[0], State: nut05.Unpaid, Expiry: 1}
+	v.Assume(env.db.SaveMeltQuote(meltq) == nil)
+	ep := v.Int("endpoint", 0, 8)
+	var status int
+	var resp []byte
+	lnBefore := env.ln.InvoiceErrs
+	hit := v.FaultRun(func() {
+		switch ep {
+		case 0:
+			body, _ := json.Marshal(map[string]any{"amount": vhDenoms[0], "unit": "sat"})
+			status, resp = vhDo(ms.mintRequest, "POST", "/v1/mint/quote/bolt11", bolt, body)
+		case 1:
+			status, resp = vhDo(ms.mintQuoteState, "GET", "/v1/mint/quote/bolt11/mintq1", map[string]string{"method": "bolt11", "quote_id": "mintq1"}, nil)
+		case 2:
+			body, _ := json.Marshal(vhJMint{Quote: "mintq1", Outputs: jout})
+			status, resp = vhDo(ms.mintTokensRequest, "POST", "/v1/mint/bolt11", bolt, body)
+		case 3:
+			body, _ := json.Marshal(vhJSwap{Inputs: jin, Outputs: jout})
+			status, resp = vhDo(ms.swapRequest, "POST", "/v1/swap", nil, body)
+		case 4:
+			body, _ := json.Marshal(map[string]any{"request": vhInvoice(uint64(vhDenoms[0])*1000, "melt-seed"), "unit": "sat"})
+			status, resp = vhDo(ms.meltQuoteRequest, "POST", "/v1/melt/quote/bolt11", bolt, body)
+		case 5:
+			status, resp = vhDo(ms.meltQuoteState, "GET", "/v1/melt/quote/bolt11/meltq1", map[string]string{"method": "bolt11", "quote_id": "meltq1"}, nil)
+		case 6:
+			body, _ := json.Marshal(map[string]any{"quote": "meltq1", "inputs": jin})
+			status, resp = vhDo(ms.meltTokens, "POST", "/v1/melt/bolt11", bolt, body)
+		case 7:
+			body, _ := json.Marshal(map[string]any{"Ys": []string{vhY(ins[0].Secret)}})
+			status, resp = vhDo(ms.tokenStateCheck, "POST", "/v1/checkstate", nil, body)
+		case 8:
+			body, _ := json.Marshal(map[string]any{"outputs": jout})
+			status, resp = vhDo(ms.restoreSignatures, "POST", "/v1/restore", nil, body)
+		}
+	})
+	lnFailed := env.ln.InvoiceErrs > lnBefore
+	v.Assert(v.Or(status == 200, status == 400), "C20 every handler answers 200 or 400")
+	if status == 400 {
+		var e vhJErr
+		v.Assert(v.And(json.Unmarshal(resp, &e) == nil, e.Detail != nil, e.Code != nil), "C20 the refusal body is {detail, code}")
+		if e.Code != nil && e.Detail != nil {
+			v.Assert(v.And(*e.Code != int(cashu.DBErrCode), *e.Code != int(cashu.LightningBackendErrCode)), "C20 the internal storage / Lightning error codes never leave the mint")
+			v.Assert(v.Not(v.Or(strings.Contains(*e.Detail, "injected storage fault"), strings.Contains(*e.Detail, "scripted backend"))), "C20 the refusal detail never carries the internal error text of a storage or Lightning failure")
+			if v.Or(hit, lnFailed) {
+				v.Reach("failure-reported")
+			}
+		}
+	} else {
+		v.Reach("answered-200")
+	}
+	if !hit && !lnFailed {
+		v.Reach("no-failure")
 	}
 }
